@@ -172,3 +172,11 @@ Definition listener_ok (c : listener_case) : bool :=
   | Some k => oN_eqb obs (if k =? owner then Some k else None)
   | None => oN_eqb obs None
   end.
+
+(* ---------------------------------------------------------------- (e) what the listener learns *)
+
+(* case: first records of the datagrams a server connection wrote during its handshake, and the ID
+   cidConnIdentifier yielded over them in order (None = it never yielded one) *)
+Definition learn_case := (list first_rec * option bytes)%type.
+
+Definition learn_ok (c : learn_case) : bool := obytes_eqb (learned (fst c)) (snd c).
